@@ -283,6 +283,9 @@ SCRIPTS = collections.OrderedDict([
     ("words ending in r or a backslash at line ends", ["CREATE TABLE customer\n(\n  owner varchar,\n  nr integer\n);\nCREATE SEQUENCE order_number\nSTART WITH 1;\n",
                                                        "create table user\n(\n  editor char,\n  r number\n);\ncreate sequence ctr\nstart with 2;\n",
                                                        "CREATE TABLE s.Supplier\n(\n  Year varchar,\n  other float\n);\nCREATE SEQUENCE s.Nr\nSTART WITH 3;\n"]),
+    ("literals first on their lines", ["CREATE TYPE m AS ENUM (\n  'sad',\n  'ok'\n);\nCREATE TABLE t (\n  a int COMMENT\n  'x',\n  b varchar DEFAULT\n  'y'\n);\n",
+                                       "create type s.Mood as enum (\n  'a b',\n  'c'\n);\ncreate table u (\n  k int comment\n  'the key',\n  v text default\n  'none'\n);\n",
+                                       "CREATE TYPE T1 AS ENUM (\n  'X',\n  'Y'\n);\nCREATE TABLE w (\n  z int COMMENT\n  'Z',\n  q char DEFAULT\n  'q'\n);\n"]),
     ("literals", ["CREATE TABLE t (\n  a varchar DEFAULT 'x, y',\n  b text COMMENT 'the (b)'\n);\n",
                   "create table u (\n  c varchar DEFAULT 'p , q',\n  d text COMMENT 'id (of) user'\n);\n",
                   "CREATE TABLE s.v (\n  e char DEFAULT ',',\n  f text COMMENT '()'\n);\n"]),
@@ -330,6 +333,7 @@ def check_line_formation(ck, ctx, lm, rule="O-form"):
         ("blank lines between the lines", lambda t: t.replace("\n", "\n\n")),
         ("CRLF and blank lines", lambda t: t.replace("\n", "\r\n\r\n")),
         ("no newline at the end", lambda t: t.rstrip("\n")),
+        ("no indentation", lambda t: t.replace("\n  ", "\n")),
     ]
     ref_handed = {}
     scripts = collections.OrderedDict(SCRIPTS)
